@@ -192,8 +192,16 @@ def has_seg_ids_at_time_points(
     # Loop over all time points, collect the label values, and check if the seg_ids are
     # present
     missing = defaultdict(list)
+    seg_shape = np.shape(segmentation)
     for t in time_points:
         try:
+            if not 0 <= t < seg_shape[time_index]:
+                # np.take would wrap a negative index around to the end of the time axis,
+                # and does not check the index at all if another axis has size 0
+                raise IndexError(
+                    f"index {t} is out of bounds for axis {time_index} with size "
+                    f"{seg_shape[time_index]}"
+                )
             labels = np.unique(np.take(segmentation, indices=t, axis=time_index))
         except IndexError as e:
             errors.append(f"Time point {t} is out of bounds: {e}")
